@@ -397,8 +397,9 @@ int c19_run(const char *tier) {
 	const char *variant = getenv("VERIF_VARIANT"); int asan = variant && !strcmp(variant, "asan");
 	long sch = 0, sch_states = 0, sch_cp = 0; int sch_ex = 1;
 	int defvar = variant && (!strcmp(variant, "autop") || !strcmp(variant, "autoz"));      /* the schedule harness is not repeated in the definedness builds */
-	for (int v = 0; v < (defvar ? 0 : 2); v++) { uint8_t sp[1] = {(uint8_t) v}; char label[64]; snprintf(label, sizeof label, "c19.sched burst %d", v);
-		e1_spec_t es = { .harness = "c19.sched", .param = sp, .nparam = 1, .bound = thorough ? 2 : 1, .label = strdup(label) };
+	for (int v4 = 0; v4 < (defvar ? 0 : 4); v4++) { int v = v4 % 2, up = v4 >= 2;      /* second round: a scheduling point after every unlock as well */
+		uint8_t sp[1] = {(uint8_t) v}; char label[96]; snprintf(label, sizeof label, "c19.sched burst %d%s", v, up ? " (points after unlocks)" : "");
+		e1_spec_t es = { .harness = "c19.sched", .param = sp, .nparam = 1, .bound = thorough ? 2 : 1, .label = strdup(label), .unlock_points = up };
 		e1_explore(&es); for (int k = 0; k < 8; k++) sch += es.schedules_by_cost[k]; sch_states += es.distinct_outcomes; sch_cp += es.choice_points; if (!es.exhaustive) sch_ex = 0;
 		rep_note("%s (receiver || queue reader || sender): bound=%d completed=%d schedules by cost=[%ld,%ld,%ld,%ld] distinct outcomes=%ld contended=%ld", label, es.bound, es.completed_bound, es.schedules_by_cost[0], es.schedules_by_cost[1], es.schedules_by_cost[2], es.schedules_by_cost[3], es.distinct_outcomes, es.contended_execs); }
 	if (asan) { rep_count("states", sch_states); rep_count("transitions", sch_cp); rep_count("executions", sch); rep_flag("exhaustive", sch_ex); return 0; }   /* the ASan build runs the schedule harness only */
